@@ -157,21 +157,32 @@ def path(f, st, depth=0):
         if b is None:
             return None
         name = st["m"]["name"]
-        if b == "this":
+        if b == "this" or b == "*this":
             return "this." + name
         if st["arrow"]:
             if b.startswith("&"):
-                return b[1:] + "." + name
-            return b + "->" + name
-        if b.startswith("*"):
-            return b[1:] + "->" + name
-        return b + "." + name
+                res = b[1:] + "." + name
+            else:
+                res = b + "->" + name
+        elif b.startswith("*"):
+            res = b[1:] + "->" + name
+        else:
+            res = b + "." + name
+        # a reference member of an RAII object whose constructor was inlined denotes what it was bound to
+        refs = f.d.get("inl_member_refs")
+        if refs and res in refs and depth < 30:
+            tp = path(f, f.s(refs[res]), depth + 5)
+            if tp is not None:
+                return tp
+        return res
     if k == "UnaryOperator":
         op = st["op"]
         ch = f.children(st)
         b = path(f, ch[0], depth + 1) if ch else None
         if b is None:
             return None
+        if b == "this" and op in ("*", "&"):
+            return "this"        # `*this` (and `&*this`): the object itself - calls and member accesses on it are on `this`
         if op == "&":
             return b[1:] if b.startswith("*") else "&" + b
         if op == "*":
@@ -236,7 +247,7 @@ def _ref_target(f, name):
                     elif d.get("inl") and not d.get("ref") and d.get("init") and d.get("type", "").rstrip().endswith(("*", "*const", "* const")):
                         # pointer parameter of an inlined helper, bound to the argument: the same pointer value for the whole
                         # helper body as long as the helper never reassigns it
-                        if _only_rvalue_uses(f, lambda x: x["k"] == "DeclRefExpr" and x["d"].get("id") == d["id"]):
+                        if d.get("inl_this") or _only_rvalue_uses(f, lambda x: x["k"] == "DeclRefExpr" and x["d"].get("id") == d["id"]):
                             cache[d["id"]] = f.s(d["init"])
                     elif not d.get("ref") and d.get("init") and d.get("k") == "local" and \
                             d.get("type", "").rstrip().endswith(("*", "*const", "* const")):
@@ -344,7 +355,8 @@ class LockAnalysis:
         self.inherited = list(inherited or [])
         self.before = {}      # pos -> state dict
         self.block_in = {}
-        self.block_out = {}   # (bid, succ index) -> state
+        self.block_out = {}   # bid -> state at the end of the block
+        self.edge_out = {}    # (bid, succ index) -> state on that edge (after branch refinement)
         self.notes = []       # things the analysis could not interpret
         self.acquire_events = []  # (pos, key, LockVal, blocking?)
         self.entry_state = dict(entry_state or {})
@@ -398,6 +410,12 @@ class LockAnalysis:
                         if d.get("ref"):
                             break
                         return "l:" + d["name"]
+                break
+            if k == "BinaryOperator" and par.get("inl_init"):
+                # member initialiser of an inlined constructor: the object lives in that member
+                lp = path(f, f.children(par)[0])
+                if lp:
+                    return lp
                 break
             if k in ("ExprWithCleanups", "CXXBindTemporaryExpr", "CXXFunctionalCastExpr",
                      "MaterializeTemporaryExpr", "ParenExpr", "ConstantExpr"):
@@ -626,6 +644,9 @@ class LockAnalysis:
                 state.pop("l:" + name, None)
                 for kk in [x for x in state if x.startswith("l:" + name + "#")]:
                     state.pop(kk, None)
+            # lock objects that are members of a dying local (an RAII section object) are released with it
+            for kk in [x for x in state if x.startswith("l:" + name + ".")]:
+                state.pop(kk, None)
         elif k == "TD":
             state.pop("t:" + e["s"], None)
         return state
@@ -756,6 +777,8 @@ class LockAnalysis:
                 state = self.transfer(pos, state)
             self.block_out[b] = dict(state)
             outs = self.refine(blk, state)
+            for idx_, o_ in enumerate(outs):
+                self.edge_out[(b, idx_)] = o_
             dead = self._infeasible_succ(blk)
             for idx, s in enumerate(blk.succs):
                 if s is None or idx == dead:
